@@ -99,6 +99,23 @@ def _build_theory_tables(name):
     declared = {}
     for nm, T in consts:
         declared.setdefault(nm, []).append(T)
+    # instances of overloaded constants that the statements of the library itself use (e.g. minus / times at int are
+    # never introduced by a Constant item, only used): in domain because real callers print and parse them
+    from logic import basic
+    used = 0
+    for tname in basic.get_import_order([name]):
+        for item in basic.theory_cache['master'][tname]['content']:
+            if getattr(item, 'error', None) is not None or item.ty not in ('thm', 'thm.ax'):
+                continue
+            try:
+                occ = L.const_occurrences(codec.term_enc(item.prop))
+            except Exception:
+                continue
+            for nm, T in occ:
+                if nm in S['overloaded'] and not codec.jt_vars(T) and T not in declared.setdefault(nm, []):
+                    if not any(codec.jt_match(dT, T, {}) for dT in declared[nm]):
+                        declared[nm].append(T)
+                        used += 1
     const_names = set(thy.get_data('term_sig').keys())
     names = [n for n in L.POOL if L.legal_name(n, const_names)]
     d = {'thy': thy, 'consts': consts, 'declared': declared, 'const_names': const_names, 'names': names,
@@ -250,6 +267,23 @@ def names_look_foreign(j, parsed):
     return False
 
 
+ASCII_SPELLINGS = ['-->', '=>', '<=', '>=', ' & ', ' | ', '~', '%', ' Mem ', ' Sub ', ' Un ', ' Int ', 'UN ', 'INT ', ' O ']
+
+
+def spelling_problem(text, uni):
+    """The unicode setting must be honoured: ASCII mode prints ASCII only (all generated names are ASCII); Unicode mode
+    uses none of the ASCII spellings that have a Unicode form in syntax/operator.py."""
+    if not uni:
+        for ch in text:
+            if ord(ch) > 127:
+                return ch
+        return None
+    for sp in ASCII_SPELLINGS:
+        if sp in text:
+            return sp
+    return None
+
+
 def _quiet():
     return contextlib.redirect_stdout(io.StringIO())
 
@@ -273,6 +307,10 @@ def roundtrip_term(thname, j, uni, hl, ll, t=None):
         raise
     except Exception as e:
         return {'status': 'print-raises', 'text': None, 'detail': '%s: %s' % (exc_name(e), str(e)[:300]), 'exc': exc_name(e)}
+    bad = spelling_problem(text, uni)
+    if bad:
+        return {'status': 'settings-not-honoured', 'text': text,
+                'detail': 'printed %r with unicode=%s: contains %r' % (text, uni, bad)}
     vs, svs = context_of([j])
     try:
         with context.fresh_context(vars=vs, svars=svs), _quiet():
@@ -527,7 +565,7 @@ def term_classes(j, text):
 
 _worker_starts = {}
 MAX_WORKER_STARTS = 2
-MAX_SCREEN_CONFIRMATIONS = 4
+MAX_SCREEN_CONFIRMATIONS = 3
 
 
 def get_worker(thname):
@@ -655,7 +693,9 @@ def check_term(case, H):
     if status != 'ok':
         # was it the history?
         feat = None
-        if ran:
+        if status == 'settings-not-honoured':
+            feat = 'unicode=%s%s' % (uni, ':after-history' if ran else '')
+        elif ran:
             try:
                 alone = get_worker(thname).ask({'t': j, 'unicode': uni, 'highlight': hl, 'line_length': ll})
             except (Timeout, RecursionError):
@@ -1487,7 +1527,7 @@ def hist_strategy(thname):
             else:
                 prefix.append({'op': 'print', 't': draw(rand_term(thname, max_fuel=2)), 'theory': thname, 'unicode': puni})
         return {'kind': 'term', 'theory': thname, 't': j, 'unicode': uni, 'highlight': hl, 'line_length': ll,
-                'prefix': prefix, 'fresh': draw(st.sampled_from([True] + [False] * 11))}
+                'prefix': prefix, 'fresh': draw(st.sampled_from([True] + [False] * 15))}
     return s()
 
 
@@ -1531,22 +1571,25 @@ def shards(tier):
         for i in range(p):
             out.append({'kind': 'pairs', 'theory': th, 'part': i, 'parts': p, 'stride': 1})
     # (a') random deeper ladders
-    for th, n, k in (('interval_arith', 3000, 6), ('string', 600, 1)):
+    for th, n, k in (('interval_arith', 2100, 6), ('string', 400, 1)):
         for i, c in enumerate(harness.split(n * mul, k * (2 if not quick else 1))):
             out.append({'kind': 'ladder', 'theory': th, 'n': c, 'i': i})
     # (b) random terms per theory
     for th in THEORIES:
-        n = 1200 if th in ('real', 'set', 'list') else 800
+        n = 800 if th in ('real', 'set', 'list') else 560
         for i, c in enumerate(harness.split(n * mul, 2 if quick else 6)):
             out.append({'kind': 'rand', 'theory': th, 'n': c, 'i': i})
     # (c) other syntactic categories
-    for kind, n in (('type', 1500), ('thm', 1200), ('inst', 500), ('tyinst', 300), ('item', 1500)):
+    for kind, n in (('type', 700), ('thm', 800), ('inst', 300), ('tyinst', 200), ('item', 1000)):
         k = 2 if quick else 6
         for i, c in enumerate(harness.split(n * mul, k)):
             out.append({'kind': kind, 'n': c, 'i': i})
+    # (e) the statements of the library itself (what real callers print and parse)
+    for th in THEORIES:
+        out.append({'kind': 'library', 'theory': th})
     # (d) history
     for th in THEORIES:
-        out.append({'kind': 'hist', 'theory': th, 'n': (100 if quick else 1500), 'i': 0})
+        out.append({'kind': 'hist', 'theory': th, 'n': (70 if quick else 1500), 'i': 0})
     return out
 
 
@@ -1584,6 +1627,27 @@ def run_shard(desc, seed, tier, H):
             H.classes['pair:outer=%s' % F.cls] += 1
             H.classes['pair:inner=%s' % gcls] += 1
         H.mark_exhaustive('ladder pairs over theory %s (part of %d)' % (th, desc['parts']))
+    elif kind == 'library':
+        from logic import basic
+        th = desc['theory']
+        combos = [(True, False, 80), (False, False, None)]
+        if tier != 'quick':
+            combos = [(u, h, l) for u in (False, True) for h in (False, True) for l in (None, 20, 40, 80)]
+        n = 0
+        for item in basic.theory_cache['master'][th]['content']:
+            if getattr(item, 'error', None) is not None or item.ty not in ('thm', 'thm.ax'):
+                continue
+            try:
+                j = codec.term_enc(item.prop)
+            except Exception:
+                H.note('library-item-not-encodable')
+                continue
+            n += 1
+            if tier == 'quick' and th == 'set' and n % 2:
+                continue
+            for (u, h, l) in combos:
+                body({'kind': 'term', 'theory': th, 't': j, 'unicode': u, 'highlight': h, 'line_length': l})
+        H.classes['library:statements:' + th] += n
     elif kind == 'ladder':
         strat = st.tuples(ladder_term(desc['theory']), settings_strategy()).map(
             lambda p: {'kind': 'term', 'theory': desc['theory'], 't': p[0], 'unicode': p[1][0], 'highlight': p[1][1],
